@@ -4,6 +4,9 @@ Real side (public API): `ConvolvedFluxes.interpolate` (quantities in the table's
 unit), `SED.interpolate` (bare AU numbers or quantities), `SED.interpolate_variable`.
 Model side: driver ops `interp` (= convInterpolate), `sedinterp` (= sedInterpolate), `interpvar`
 (= interpVariable) and the scalar `interp1` (= interpClamp, the right-hand side of C13_variable).
+Same-object histories: one ConvolvedFluxes / SED object is interpolated, re-assigned (flux, error, both,
+apertures) and interpolated again; every result is compared with the model for the table the object holds at
+that moment (the model is a pure function of the current table, so any state kept between calls shows up).
 """
 import numpy as np
 
@@ -17,14 +20,18 @@ PID = 'C13'
 RULE = ('cases = (table of 1..8 increasing apertures x 1..6 models or 1..6 wavelengths, request list) for one of the '
         'three entry points; requests are drawn inside / on a knot / above / below the table, in the table\'s unit, '
         'another length unit, or as bare AU numbers; a case is non-trivial when the table has >= 2 apertures and at '
-        'least one request is not on a knot, or when it exercises an error / repeat branch; distinct = distinct '
-        'canonical hash of the generated inputs')
+        'least one request is not on a knot, or when it exercises an error / repeat branch; about a third of the random '
+        'cases are same-object histories (2-7 steps of interpolate / assign flux / assign error / assign both / assign '
+        'apertures on ONE ConvolvedFluxes or SED object, every interpolate compared against the table held at that '
+        'moment), always non-trivial; distinct = distinct canonical hash of the generated inputs')
 REQUIRED_BRANCHES = ['conv_inside', 'conv_knot', 'conv_above', 'conv_below_error', 'conv_single_repeat',
                      'conv_other_unit', 'conv_above_other_unit',
                      'sed_inside', 'sed_knot', 'sed_above', 'sed_below_error', 'sed_single_repeat',
                      'sed_bare', 'sed_quantity',
                      'var_at_filter', 'var_between', 'var_outside', 'var_above', 'var_below_error',
-                     'var_single', 'var_on_min']
+                     'var_single', 'var_on_min',
+                     'hist_conv_after_error', 'hist_conv_after_flux', 'hist_conv_after_both', 'hist_conv_after_apertures',
+                     'hist_conv_repeat_interp', 'hist_sed_after_flux', 'hist_sed_var_after_flux']
 ASSUMPTIONS = ['IEEE rounding is not modelled: values are compared with a rounding budget of 1e-9 relative + 1e-12 x the '
                'largest tabulated magnitude of the row (linear interpolation between very different values cancels)',
                'requests given in another unit than the table are sent to the model after astropy\'s conversion to the '
@@ -209,7 +216,9 @@ DIRECTED = [('conv', d) for d in ['conv_inside', 'conv_knot', 'conv_above', 'con
                                   'conv_other_unit'] + ['conv_above_other_unit'] * 12] + \
            [('sed', d) for d in ['sed_inside', 'sed_knot', 'sed_above', 'sed_below', 'sed_single', 'sed_none',
                                  'sed_bare', 'sed_quantity']] + \
-           [('var', d) for d in ['var_at_filter', 'var_above', 'var_below', 'var_single'] + ['var_on_min'] * 8]
+           [('var', d) for d in ['var_at_filter', 'var_above', 'var_below', 'var_single'] + ['var_on_min'] * 8] + \
+           [('hist', d) for d in ['h_error', 'h_flux', 'h_both', 'h_aps', 'h_aps_only', 'h_repeat', 'h_long'] * 2] + \
+           [('shist', d) for d in ['sh_interp', 'sh_var', 'sh_mixed']]
 
 
 def gen_cases(seed, tier):
@@ -219,8 +228,8 @@ def gen_cases(seed, tier):
         if i < len(DIRECTED):
             k, d = DIRECTED[i]
         else:
-            k, d = rng.choice(['conv', 'sed', 'var']), None
-        yield {'conv': gen_conv, 'sed': gen_sed, 'var': gen_var}[k](rng, d)
+            k, d = rng.choice(['conv', 'sed', 'var', 'hist', 'hist', 'shist']), None
+        yield {'conv': gen_conv, 'sed': gen_sed, 'var': gen_var, 'hist': gen_hist, 'shist': gen_shist}[k](rng, d)
 
 
 # ----------------------------------------------------------------------------- execution
@@ -277,19 +286,28 @@ def classify(aps, xs, prefix, branches):
             branches.add(prefix + '_inside')
 
 
-def run_conv(case):
+def make_conv(case):
     from sedfitter.convolved_fluxes import ConvolvedFluxes
-    branches = set()
-    tu, ru = UNITS[case['tab_unit']], UNITS[case['req_unit']]
-    aps = case['aps']
     nm = len(case['names'])
     c = ConvolvedFluxes()
     c.model_names = np.array(case['names'])
     if not case['no_aps']:
-        c.apertures = np.array(aps, dtype=float) * tu
+        c.apertures = np.array(case['aps'], dtype=float) * UNITS[case['tab_unit']]
     c.central_wavelength = case['wav'] * u.micron
     c.flux = np.array(case['flux'], dtype=float).reshape(nm, -1) * u.mJy
     c.error = np.array(case['err'], dtype=float).reshape(nm, -1) * u.mJy
+    return c
+
+
+def run_conv(case, c=None):
+    """one interpolate() against the table described by `case`; `c` is the object to call (a fresh one
+    when None; in a history the caller passes the live object, whose current table is `case`)"""
+    branches = set()
+    tu, ru = UNITS[case['tab_unit']], UNITS[case['req_unit']]
+    aps = case['aps']
+    nm = len(case['names'])
+    if c is None:
+        c = make_conv(case)
     req_q = np.array(case['req'], dtype=float) * tu
     if ru is not tu:
         req_q = req_q.to(ru)
@@ -349,9 +367,10 @@ def sed_txt(wavs, aps_au, flux):
     return ' '.join([rats(wavs), rats(aps_au), rows_txt(flux)])
 
 
-def run_sed(case):
+def run_sed(case, s=None):
     branches = set()
-    s = make_sed(case)
+    if s is None:
+        s = make_sed(case)
     tu = UNITS[case['tab_unit']]
     aps_au = [] if case['no_aps'] else [float(v) for v in (np.array(case['aps'], dtype=float) * tu).to(u.au).value]
     req_q = np.array(case['req'], dtype=float) * tu
@@ -389,9 +408,10 @@ def run_sed(case):
     return True, '', branches, None
 
 
-def run_var(case):
+def run_var(case, s=None):
     branches = set()
-    s = make_sed(case)
+    if s is None:
+        s = make_sed(case)
     aps = case['aps']
     aps_au = [] if case['no_aps'] else aps
     fw, fa = case['fw'], case['fa']
@@ -450,16 +470,175 @@ def run_var(case):
     return True, '', branches, None
 
 
+# ----------------------------------------------------------------------------- same-object histories
+
+def gen_rows(rng, n_rows, n_cols, mono=False):
+    rows = []
+    for _ in range(n_rows):
+        row = [nice(rng, 1e-3, 1e3, 4) for _ in range(n_cols)]
+        rows.append(sorted(row) if mono else row)
+    return rows
+
+
+def gen_hist(rng, directed=None):
+    """a ConvolvedFluxes object used several times: interpolate / assign flux / assign error / assign both /
+    assign apertures (with or without consistent new flux and error), every interpolate is compared"""
+    base = gen_conv(rng, 'conv_inside')
+    base['req_unit'] = base['tab_unit']
+    if directed is None and rng.random() < 0.1:
+        base = gen_conv(rng, 'conv_single')
+    nm = len(base['names'])
+    aps = list(base['aps'])
+    tu = base['tab_unit']
+    ops = {'h_error': ['interp', 'error', 'interp'], 'h_flux': ['interp', 'flux', 'interp'],
+           'h_both': ['interp', 'both', 'interp'], 'h_aps': ['interp', 'aps', 'interp'],
+           'h_aps_only': ['interp', 'aps_only', 'interp'], 'h_repeat': ['interp', 'interp'],
+           'h_long': ['interp', 'error', 'interp', 'flux', 'interp', 'error', 'interp']}.get(directed)
+    if ops is None:
+        ops = ['interp']
+        for _ in range(rng.randint(1, 3)):
+            ops.append(rng.choice(['interp', 'flux', 'error', 'error', 'both', 'aps', 'aps_only']))
+        if ops[-1] != 'interp':
+            ops.append('interp')
+    steps = []
+    for op in ops:
+        if op == 'interp':
+            kinds = pick_kinds(rng, rng.randint(1, 5), allow_below=(len(aps) >= 2 and rng.random() < 0.3))
+            steps.append(dict(op='interp', req=gen_req(rng, aps, kinds)))
+        elif op == 'flux':
+            steps.append(dict(op='flux', flux=gen_rows(rng, nm, len(aps))))
+        elif op == 'error':
+            steps.append(dict(op='error', err=gen_rows(rng, nm, len(aps))))
+        elif op == 'both':
+            steps.append(dict(op='both', flux=gen_rows(rng, nm, len(aps)), err=gen_rows(rng, nm, len(aps))))
+        elif op == 'aps_only':
+            if len(aps) < 2:
+                steps.append(dict(op='error', err=gen_rows(rng, nm, len(aps))))
+            else:
+                aps = gen_aps(rng, len(aps), tu)
+                steps.append(dict(op='aps_only', aps=aps))
+        elif op == 'aps':
+            if len(aps) < 2:
+                steps.append(dict(op='flux', flux=gen_rows(rng, nm, len(aps))))
+            else:
+                aps = gen_aps(rng, rng.randint(2, 8), tu)
+                steps.append(dict(op='aps', aps=aps, flux=gen_rows(rng, nm, len(aps)), err=gen_rows(rng, nm, len(aps))))
+    base.pop('req')
+    base['kind'] = 'hist'
+    base['steps'] = steps
+    return base
+
+
+def gen_shist(rng, directed=None):
+    """an SED object used several times: interpolate / interpolate_variable / assign flux"""
+    base = gen_var(rng, 'var_at_filter' if directed else None)
+    ops = {'sh_interp': ['sinterp', 'sflux', 'sinterp'], 'sh_var': ['var', 'sflux', 'var'],
+           'sh_mixed': ['sinterp', 'var', 'sflux', 'var', 'sinterp']}.get(directed)
+    if ops is None:
+        ops = [rng.choice(['sinterp', 'var'])]
+        for _ in range(rng.randint(1, 3)):
+            ops.append(rng.choice(['sinterp', 'var', 'sflux', 'sflux']))
+        if ops[-1] == 'sflux':
+            ops.append(rng.choice(['sinterp', 'var']))
+    aps = base['aps']
+    steps = []
+    for op in ops:
+        if op == 'sinterp':
+            kinds = pick_kinds(rng, rng.randint(1, 4), allow_below=(len(aps) >= 2 and rng.random() < 0.3))
+            steps.append(dict(op='sinterp', req=gen_req(rng, aps, kinds)))
+        elif op == 'var':
+            kinds = pick_kinds(rng, len(base['fw']), allow_below=(len(aps) >= 2 and rng.random() < 0.2))
+            steps.append(dict(op='var', fa=gen_req(rng, aps, kinds)))
+        else:
+            steps.append(dict(op='sflux', flux=gen_rows(rng, len(aps), len(base['wavs']))))
+    base['kind'] = 'shist'
+    base['steps'] = steps
+    base.pop('fa')
+    return base
+
+
+def run_hist(case):
+    branches = set()
+    state = {k: case[k] for k in ('aps', 'no_aps', 'tab_unit', 'req_unit', 'names', 'wav', 'flux', 'err')}
+    c = make_conv(state)
+    tu = UNITS[state['tab_unit']]
+    nm = len(state['names'])
+    done = []
+    last_assign = None
+    for k, st in enumerate(case['steps']):
+        op = st['op']
+        if op == 'interp':
+            ok, detail, br, _ = run_conv(dict(state, req=st['req']), c)
+            branches |= br
+            if len(state['aps']) >= 2:
+                if last_assign:
+                    branches.add('hist_conv_after_' + last_assign)
+                elif done and done[-1] == 'interp':
+                    branches.add('hist_conv_repeat_interp')
+            if not ok:
+                return False, 'same ConvolvedFluxes object, history %r, step %d (interpolate): %s; table held by the ' \
+                              'object at that moment: apertures %r, flux %r, error %r' \
+                    % (done + ['interp'], k, detail, state['aps'], state['flux'], state['err']), branches, None
+            last_assign = None
+        else:
+            state = dict(state)
+            if op in ('aps', 'aps_only'):
+                state['aps'] = st['aps']
+                c.apertures = np.array(st['aps'], dtype=float) * tu
+            if op in ('flux', 'both', 'aps'):
+                state['flux'] = st['flux']
+                c.flux = np.array(st['flux'], dtype=float).reshape(nm, -1) * u.mJy
+            if op in ('error', 'both', 'aps'):
+                state['err'] = st['err']
+                c.error = np.array(st['err'], dtype=float).reshape(nm, -1) * u.mJy
+            last_assign = {'aps': 'apertures', 'aps_only': 'apertures'}.get(op, op)
+        done.append(op)
+    return True, '', branches, None
+
+
+def run_shist(case):
+    branches = set()
+    state = {k: case[k] for k in ('aps', 'no_aps', 'wavs', 'flux', 'fw')}
+    state['tab_unit'] = 'au'
+    s = make_sed(state)
+    done = []
+    after_flux = False
+    for k, st in enumerate(case['steps']):
+        op = st['op']
+        if op == 'sflux':
+            state = dict(state, flux=st['flux'])
+            s.flux = np.array(st['flux'], dtype=float).reshape(len(st['flux']), -1) * u.mJy
+            after_flux = True
+        else:
+            if op == 'sinterp':
+                ok, detail, br, _ = run_sed(dict(state, req=st['req'], req_unit='bare'), s)
+                tag = 'hist_sed_after_flux'
+            else:
+                ok, detail, br, _ = run_var(dict(state, fa=st['fa']), s)
+                tag = 'hist_sed_var_after_flux'
+            branches |= br
+            if after_flux and len(state['aps']) >= 2:
+                branches.add(tag)
+            if not ok:
+                return False, 'same SED object, history %r, step %d: %s; fluxes held by the object at that moment %r' \
+                    % (done + [op], k, detail, state['flux']), branches, None
+            after_flux = False
+        done.append(op)
+    return True, '', branches, None
+
+
 def nontrivial(case):
-    if len(case['aps']) == 1:
+    if len(case['aps']) == 1 or case['kind'] in ('hist', 'shist'):
         return True
     xs = case['fa'] if case['kind'] == 'var' else case['req']
     return any(x not in case['aps'] for x in xs)
 
 
 def run_case(case):
-    ok, detail, branches, finding = {'conv': run_conv, 'sed': run_sed, 'var': run_var}[case['kind']](case)
-    sample = dict(kind=case['kind'], apertures=case['aps'], request=case.get('req', case.get('fa')),
+    ok, detail, branches, finding = {'conv': run_conv, 'sed': run_sed, 'var': run_var, 'hist': run_hist,
+                                     'shist': run_shist}[case['kind']](case)
+    sample = dict(kind=case['kind'], apertures=case['aps'],
+                  request=case.get('req', case.get('fa', [st['op'] for st in case.get('steps', [])])),
                   units=(case.get('tab_unit'), case.get('req_unit')))
     return CaseResult(ok, detail=detail, branches=branches, key=common.canon_hash(case), nontrivial=nontrivial(case),
                       sample=sample, finding=finding, violates=None if ok else True)
